@@ -213,6 +213,60 @@ func (v *vm) execMisc() bool {
 		v.str(" max=")
 		v.res = appendF(v.res, st.Max())
 
+	case "tobsx":
+		v.need(2)
+		st := v.getT(1)
+		v.str("count=")
+		v.res = appendX(v.res, st.Count())
+		v.str(" sum=")
+		v.res = appendX(v.res, st.Sum())
+		v.str(" min=")
+		v.res = appendX(v.res, st.Min())
+		v.str(" max=")
+		v.res = appendX(v.res, st.Max())
+	case "tempty":
+		v.need(2)
+		v.stats[string(t[1])] = stat.NewSummaryStatistics()
+		v.ok()
+	case "tadd":
+		v.need(4)
+		st, x, c := v.getT(1), v.f(2), v.f(3)
+		st.Add(x, c)
+		v.ok()
+	case "taddcount":
+		v.need(3)
+		st, x := v.getT(1), v.f(2)
+		st.AddToCount(x)
+		v.ok()
+	case "taddsum":
+		v.need(3)
+		st, x := v.getT(1), v.f(2)
+		st.AddToSum(x)
+		v.ok()
+	case "tmerge":
+		v.need(3)
+		st, o := v.getT(1), v.getT(2)
+		st.MergeWith(o)
+		v.ok()
+	case "treweight":
+		v.need(3)
+		st, x := v.getT(1), v.f(2)
+		st.Reweight(x)
+		v.ok()
+	case "trescale":
+		v.need(3)
+		st, x := v.getT(1), v.f(2)
+		st.Rescale(x)
+		v.ok()
+	case "tclear":
+		v.need(2)
+		v.getT(1).Clear()
+		v.ok()
+	case "tcopy":
+		v.need(3)
+		v.stats[string(t[1])] = v.getT(2).Copy()
+		v.ok()
+
 	default:
 		return false
 	}
